@@ -825,6 +825,10 @@ class ovld_cls_dict(dict):
             elif mixins:
                 # Earlier definitions of this class body stay on top
                 prev.add_mixins(*mixins)
+                if prev.dispatch is value:
+                    # The marker has been acted upon: it must not stay on the
+                    # function this class keeps (@extend_super @ovld(...))
+                    value._extend_super = False
 
         if prev is not None:
             if is_ovld(value) and prev is not value:
